@@ -2,6 +2,7 @@ package rules
 
 import (
 	"fmt"
+	"go/types"
 
 	"golang.org/x/tools/go/ssa"
 
@@ -62,7 +63,17 @@ func c15CheckIndexes(c *ctx) {
 	for _, b := range okBlocks {
 		found := false
 		for _, ff := range core.ForallFactsAt(b, 1) {
-			if ff.Kind != core.FCmp || !loopOver(ff.Loop, fn.Params[1]) {
+			if !loopOver(ff.Loop, fn.Params[1]) {
+				continue
+			}
+			// (id mod q).Sign() != 0 says the same as (id mod q).Cmp(zero) != 0
+			if ff.Kind == core.FSign && ff.X != nil && ff.Ord&core.EQ == 0 {
+				if occ, under := onlyUnder(ff.X, elem, order); occ && under {
+					found = true
+				}
+				continue
+			}
+			if ff.Kind != core.FCmp {
 				continue
 			}
 			x, y, o := ff.X, ff.Y, ff.Ord
@@ -90,6 +101,11 @@ func c15CheckIndexes(c *ctx) {
 			case *ssa.Lookup:
 				if x.CommaOk {
 					lookups = append(lookups, x)
+				} else if mt, isMap := x.X.Type().Underlying().(*types.Map); isMap {
+					// a set kept as map[key]bool: the value looked up is the membership flag
+					if bt, isB := mt.Elem().Underlying().(*types.Basic); isB && bt.Kind() == types.Bool {
+						lookups = append(lookups, x)
+					}
 				}
 			case *ssa.MapUpdate:
 				updates = append(updates, x)
@@ -120,6 +136,13 @@ func c15CheckIndexes(c *ctx) {
 				if ff.Kind == core.FBool && !ff.Bool && ff.X != nil {
 					if ex, ok := ff.X.V.(*ssa.Extract); ok && ex.Tuple == ssa.Value(lk) && ex.Index == 1 && loopOver(ff.Loop, fn.Params[1]) {
 						found = true
+					}
+					if !lk.CommaOk && ff.X.V == ssa.Value(lk) && loopOver(ff.Loop, fn.Params[1]) {
+						// map[key]bool: the looked-up value is false for every element on the success path,
+						// and what is inserted is the constant true
+						if v, isK := core.ConstBool(core.Strip(up.Value)); isK && v {
+							found = true
+						}
 					}
 				}
 			}
